@@ -48,13 +48,22 @@ type SRHistory struct {
 
 var slackNotes int
 
+var firstReportWait = 2 * time.Second
+
 func srRun(c *corr.Ctx, h *SRHistory, name string) {
 	var now atomic.Int64
+	// reports the Sender releases by itself (run(): the first one as soon as a reference packet exists)
+	spont := make(chan rtcp.Packet, 64)
 	snd := &rtpsender.Sender{
-		ClockRate:       h.Rate,
-		Period:          time.Hour,
-		TimeNow:         func() time.Time { return time.Unix(0, now.Load()) },
-		WritePacketRTCP: func(rtcp.Packet) {},
+		ClockRate: h.Rate,
+		Period:    time.Hour,
+		TimeNow:   func() time.Time { return time.Unix(0, now.Load()) },
+		WritePacketRTCP: func(p rtcp.Packet) {
+			select {
+			case spont <- p:
+			default:
+			}
+		},
 	}
 	snd.Initialize()
 	defer snd.Close()
@@ -98,17 +107,94 @@ func srRun(c *corr.Ctx, h *SRHistory, name string) {
 	rate := big.NewInt(int64(h.Rate))
 	e9 := big.NewInt(1000000000)
 
+	// clause (a): no sender report before the first reference (PTS == DTS) packet.  Anything the Sender has
+	// released by itself so far is inspected here; `wait` gives its goroutine time to act.
+	firstReleased := false
+	spuriousSeen := false
+	inspect := func(i int, p rtcp.Packet) {
+		sr, _ := p.(*rtcp.SenderReport)
+		if sr == nil {
+			return
+		}
+		if !havePkt {
+			spuriousSeen = true
+			viol("no sender report before the first reference (PTS == DTS) packet", "sr-report-before-reference",
+				fmt.Sprintf("event %d: the sender released a report (SSRC %d, NTP %d, RTP %d) although no packet with PTS == DTS was sent yet",
+					i, sr.SSRC, sr.NTPTime, sr.RTPTime))
+		} else if firstReleased {
+			viol("the sender releases one report when the first reference packet appears, then one per period", "sr-unexpected-report",
+				fmt.Sprintf("event %d: an extra report (SSRC %d, NTP %d, RTP %d)", i, sr.SSRC, sr.NTPTime, sr.RTPTime))
+		}
+	}
+	noSpurious := func(i int, wait time.Duration) {
+		var deadline <-chan time.Time
+		if wait > 0 {
+			deadline = time.After(wait)
+		}
+		for {
+			select {
+			case p := <-spont:
+				inspect(i, p)
+				continue
+			default:
+			}
+			if deadline == nil {
+				return
+			}
+			select {
+			case p := <-spont:
+				inspect(i, p)
+			case <-deadline:
+				return
+			}
+		}
+	}
+	npkt := 0
 	for i, ev := range h.Events {
 		switch ev.Op {
 		case "pkt":
+			noSpurious(i, 0)
 			now.Store(ev.Now)
+			isFirstRef := ev.Eq && !havePkt
 			snd.ProcessPacket(&rtp.Packet{Header: rtp.Header{Timestamp: ev.TS, SSRC: 0x1234567}, Payload: make([]byte, ev.Len)}, time.Unix(0, ev.NTP), ev.Eq)
 			add(fmt.Sprintf("time spkt %d %d %s %d %d %d", ev.TS, ev.NTP, corr.B(ev.Eq), ev.Now, 0x1234567, ev.Len), "ok")
 			sent++
 			octets += uint32(ev.Len)
+			npkt++
+			if !ev.Eq && !havePkt && npkt == 1 {
+				c.Dist("sr:first-packet-not-a-reference")
+				noSpurious(i, 300*time.Microsecond)
+			}
 			if ev.Eq {
 				havePkt = true
 				cur = anchor{lastRTP: ev.TS, lastNTP: ev.NTP, lastSys: ev.Now, lastK: ev.K}
+			}
+			if isFirstRef && !spuriousSeen {
+				// the Sender now releases its first report by itself; the clock stands still at ev.Now until
+				// it has, so the report must be the model's report for this instant
+				select {
+				case p := <-spont:
+					firstReleased = true
+					sr, ok := p.(*rtcp.SenderReport)
+					if !ok {
+						viol("the first sender report is released once a reference packet exists", "sr-first-report", fmt.Sprintf("event %d: %T", i, p))
+						break
+					}
+					add(fmt.Sprintf("time srep %d", ev.Now), fmt.Sprintf("sr %d %d %d %d %d", sr.SSRC, sr.NTPTime, sr.RTPTime, sr.PacketCount, sr.OctetCount))
+					if sr.SSRC != 0x1234567 {
+						viol("sender report SSRC is the packets' SSRC", "sr-ssrc", fmt.Sprintf("event %d: SSRC %d", i, sr.SSRC))
+					}
+					if sr.RTPTime != ev.TS {
+						viol("a report made at the instant of the reference packet carries its RTP timestamp", "sr-first-report", fmt.Sprintf("event %d: RTP %d vs %d", i, sr.RTPTime, ev.TS))
+					}
+					if back := ntpDecodeNs(sr.NTPTime); (back-ev.NTP > 0 || back-ev.NTP < -1) && ev.NTP >= ntpMinNs && ev.NTP < ntpMaxNs {
+						viol("a report made at the instant of the reference packet carries its NTP time", "sr-first-report", fmt.Sprintf("event %d: NTP off by %d ns", i, back-ev.NTP))
+					}
+					c.Dist("sr:first-report-released-by-sender")
+				case <-time.After(firstReportWait):
+					firstReportWait = 2 * time.Millisecond // a sender that does not release it: do not stall the whole run
+					viol("the first sender report is released once a reference packet exists", "sr-first-report", fmt.Sprintf("event %d: nothing released", i))
+				}
 			}
 		case "report":
 			if !havePkt {
@@ -164,6 +250,9 @@ func srRun(c *corr.Ctx, h *SRHistory, name string) {
 			} else {
 				c.Dist("sr:report-outside-uint32-range")
 			}
+			if sr.SSRC != 0x1234567 {
+				viol("sender report SSRC is the packets' SSRC", "sr-ssrc", fmt.Sprintf("event %d: SSRC %d", i, sr.SSRC))
+			}
 			// report counters
 			if sr.PacketCount != uint32(sent) || sr.OctetCount != octets {
 				viol("sender report counters", "sr-counters", fmt.Sprintf("event %d: %d/%d vs %d/%d", i, sr.PacketCount, sr.OctetCount, sent, octets))
@@ -183,7 +272,14 @@ func srRun(c *corr.Ctx, h *SRHistory, name string) {
 			if ev.Report < 0 || ev.Report >= len(reports) || reports[ev.Report] == nil {
 				continue
 			}
-			rcv.ProcessSenderReport(reports[ev.Report], time.Unix(0, ev.Now))
+			// the caller owns the report: the receiver must have copied what it needs (the library hands the same
+			// pointer to the application's OnPacketRTCP right afterwards) - scribble over it after the call
+			passed := *reports[ev.Report]
+			rcv.ProcessSenderReport(&passed, time.Unix(0, ev.Now))
+			passed.NTPTime = ^passed.NTPTime
+			passed.RTPTime += 0x5a5a5a5a
+			passed.SSRC = 0xdeadbeef
+			passed.PacketCount, passed.OctetCount = 0, 0
 			add(fmt.Sprintf("time rsr %d %d", reports[ev.Report].NTPTime, reports[ev.Report].RTPTime), "ok")
 			active = &anchors[ev.Report]
 		case "query":
@@ -235,6 +331,11 @@ func srRun(c *corr.Ctx, h *SRHistory, name string) {
 			}
 		}
 	}
+	if !havePkt {
+		noSpurious(len(h.Events), 300*time.Microsecond)
+	} else {
+		noSpurious(len(h.Events), 0)
+	}
 	c.Add(cs)
 }
 
@@ -270,6 +371,12 @@ func genSRHistory(c *corr.Ctx) *SRHistory {
 	}
 	mode := r.IntN(6)
 	c.Dist(fmt.Sprintf("sr:mode=%d", mode))
+	// the PTS == DTS pattern of the packets: 0 by step model, 1 all true, 2 all false, 3 false prefix then mixed, 4 sparse true
+	eqPat := r.IntN(5)
+	falsePrefix := 1 + r.IntN(6)
+	c.Dist(fmt.Sprintf("sr:eq-pattern=%d", eqPat))
+	npk := 0
+	var repTicks int64 // ticks the last report lies after the current packet position
 	n := 4 + r.IntN(40)
 	sys := int64(1600000000)*1000000000 + r.Int64N(1000000000000)
 	var K int64
@@ -307,13 +414,34 @@ func genSRHistory(c *corr.Ctx) *SRHistory {
 			if i == 0 {
 				eq = r.IntN(8) != 0
 			}
+			switch eqPat {
+			case 1:
+				eq = true
+			case 2:
+				eq = false
+			case 3:
+				eq = npk >= falsePrefix && r.IntN(3) != 0
+			case 4:
+				eq = r.IntN(6) == 0
+			}
+			npk++
 			h.Events = append(h.Events, SREvent{Op: "pkt", TS: h.TS0 + uint32(K), NTP: h.NTP0 + roundDivInt(K, int64(h.Rate)), Eq: eq, Len: r.IntN(1500), Now: sys, K: K})
 		case x < 6:
 			// a report after some system time (the report period): up to the uint32 range of ticks
 			var d int64
-			switch r.IntN(6) {
+			switch r.IntN(7) {
 			case 0:
 				d = 0
+			case 6:
+				// long idle: between 2^31 and 2^32 ticks since the reference packet (6.6 h .. 13.2 h at 90 kHz):
+				// the extrapolated RTP time must still wrap modulo 2^32 correctly
+				tk := int64(1<<31) + r.Int64N(1<<31-10)
+				d = new(big.Int).Div(new(big.Int).Mul(big.NewInt(tk), big.NewInt(1000000000)), big.NewInt(int64(h.Rate))).Int64()
+				if d > 30*86400*1000000000 || d < 0 {
+					d = r.Int64N(20 * 1000000000)
+				} else {
+					c.Dist("sr:report-after-more-than-2^31-ticks")
+				}
 			case 1:
 				d = int64(r.IntN(10)) * 1000000000 // whole seconds: product exactly an integer
 			case 2:
@@ -340,6 +468,9 @@ func genSRHistory(c *corr.Ctx) *SRHistory {
 				}
 			}
 			h.Events = append(h.Events, SREvent{Op: "report", Now: sys + d})
+			if d > 0 {
+				repTicks = new(big.Int).Div(new(big.Int).Mul(big.NewInt(d), big.NewInt(int64(h.Rate))), big.NewInt(1000000000)).Int64()
+			}
 			if r.IntN(3) != 0 {
 				sys += max(d, 0)
 			}
@@ -354,9 +485,11 @@ func genSRHistory(c *corr.Ctx) *SRHistory {
 		default:
 			// query a timestamp of the writer's clock around the current position
 			var off int64
-			switch r.IntN(5) {
+			switch r.IntN(6) {
 			case 0:
 				off = 0
+			case 5:
+				off = repTicks + int64(r.IntN(200000)) - 100000 // around the last report's own position
 			case 1:
 				off = r.Int64N(1<<31) - 1<<30
 			case 2:
